@@ -83,6 +83,9 @@ func runAKE(c *AKECase) (*sim.Outcome, []int, []int) {
 		}
 		w.Q[0], w.Q[1] = nil, nil
 	}
+	// a refresh starts from a session: only a new session id shows that the exchange was completed
+	oldSSID := [2][8]byte{w.P[0].C.GetSSID(), w.P[1].C.GetSSID()}
+	wasEnc := [2]bool{w.P[0].C.IsEncrypted(), w.P[1].C.IsEncrypted()}
 	first := [2][]byte{}
 	starters := []int{c.Who}
 	if c.Who >= 2 {
@@ -241,6 +244,11 @@ func runAKE(c *AKECase) (*sim.Outcome, []int, []int) {
 	desc := fmt.Sprintf("trigger %d started by %d in pre-state %d, versions %d/%d, schedule %v (2 = a further trigger, by the other side: %v)", c.Trigger%5, c.Who, pre, c.VA, c.VB, taken, c.Other == 1)
 	if !a.IsEncrypted() || !b.IsEncrypted() {
 		return fail("C07/no-completion", "the network is quiet but A encrypted=%v, B encrypted=%v (%s; crossing D-H Commits: %v)", a.IsEncrypted(), b.IsEncrypted(), desc, collision), taken, open
+	}
+	for p, cv := range []interface{ GetSSID() [8]byte }{a, b} {
+		if wasEnc[p] && cv.GetSSID() == oldSSID[p] {
+			return fail("C07/no-completion", "the network is quiet and %s is still in the session it was in before the exchange was started (SSID %x): the refresh did not take place (%s)", w.P[p].Name, oldSSID[p], desc), taken, open
+		}
 	}
 	if a.GetSSID() != b.GetSSID() {
 		return fail("C07/different-sessions", "both sides are encrypted but in different sessions (%s)", desc), taken, open
